@@ -47,14 +47,20 @@ HEAVY_PLOTS = {"plot_right_edge", "plot_mountain", "plot_broom"}
 # generation
 # ----------------------------------------------------------------------------------------------
 
-def rand_triangle_cells(rng, n_slices=None, small=False, for_plot=False):
+def rand_triangle_cells(rng, n_slices=None, small=False, for_plot=False, force_samples=None):
     """standard loss/premium fields; scalar, sample or mixed (observed scalars + predicted samples);
     1-3 slices with (mostly) DIFFERENT layouts; regular and ragged; some cells lack a field."""
     n_slices = n_slices or rng.choice([1, 2, 2, 3])
     metas = gen.rand_metas(rng, n_slices, single_attr=rng.random() < 0.7)
     style = rng.choice(["scalar", "scalar", "sample", "mixed", "mixed"]) if not for_plot else \
         rng.choice(["scalar", "mixed"])
-    n_samples = rng.choice([2, 3, 4, 5, 8, 11])
+    if force_samples:
+        style = rng.choice(["sample", "mixed"])
+    # odd / even / prime counts, and multiples of 40 (every quantile level x n is then a whole number: an
+    # order-statistic shortcut could fire there); rarely 1000 posterior draws on a small triangle
+    n_samples = rng.choice([2, 3, 4, 5, 8, 11] if for_plot else [2, 3, 4, 5, 8, 11, 40, 80, 41])
+    if force_samples:
+        n_samples, small = force_samples, True
     kind = rng.choice(["U", "U", "C", "I"]) if not for_plot else "U"
     daily = (not for_plot) and rng.random() < 0.12
     res = rng.choice([1, 3, 6, 12])
@@ -351,6 +357,51 @@ def py_spec(cells, recs):
     return bad
 
 
+def rescale(v):
+    """another value of the same kind, shape and dtype (exact: small integers / dyadics times 3 plus 1)"""
+    if v is None:
+        return None
+    if isinstance(v, np.ndarray):
+        return v * 3 + 1
+    return v * 3 + 1
+
+
+def keep_samples_problems(cells, recs):
+    """build_plot_data(..., keep_samples=True): for a sample-valued metric the record's `metric` entry is the dict
+    {0: first sample, 1: second, ...} of THAT cell's metric samples; scalar metrics keep a scalar"""
+    bad = []
+    if len(recs) != len(cells):
+        return [("keep_samples=True: one record per cell", f"{len(recs)} records for {len(cells)} cells")]
+    for i, (c, r) in enumerate(zip(cells, recs)):
+        for name, (kind, f) in TABLE.items():
+            v = r.get(name)
+            if not isinstance(v, dict) or "snake_case_field" not in v:
+                continue
+            exp = expected_value(cells, c, kind, f)
+            if exp is None:
+                continue
+            m = v.get("metric")
+            if exp[0] == "s" or len(exp[1]) == 1:
+                if isinstance(m, dict):
+                    bad.append(("keep_samples=True: a scalar metric must stay a scalar", (i, name)))
+                continue
+            if not isinstance(m, dict):
+                bad.append(("keep_samples=True: the metric entry of a sample-valued metric is the dict of its samples",
+                            (i, name, type(m).__name__)))
+                continue
+            if list(m.keys()) != list(range(len(exp[1]))):
+                bad.append(("keep_samples=True: sample dict keyed 0..n-1 in order", (i, name, list(m.keys())[:5])))
+                continue
+            try:
+                got = [frac(x) for x in m.values()]
+            except NonFinite:
+                bad.append(("keep_samples=True: a kept sample is not finite", (i, name)))
+                continue
+            if not all(approx(a, b) for a, b in zip(got, exp[1])):
+                bad.append(("keep_samples=True: the kept samples are the cell's own metric samples, in order", (i, name)))
+    return bad
+
+
 # ----------------------------------------------------------------------------------------------
 # model vs implementation
 # ----------------------------------------------------------------------------------------------
@@ -474,7 +525,51 @@ def _plot_core(tri, name, rec):
         rec.update(status="not-vega-lite", detail=str(spec.get("$schema")))
         return rec
     rec["facets"] = count_facets(spec)
+    if name in FACET_DATA_PLOTS:
+        rec["facet_data"] = facet_data_problem(tri, spec)
     return rec
+
+
+# plot methods whose facet embeds build_plot_data(slice): the facet's data must be that slice's records
+FACET_DATA_PLOTS = {"plot_heatmap", "plot_data_completeness", "plot_atas", "plot_sunset", "plot_growth_curve",
+                    "plot_ballistic", "plot_broom"}
+
+
+def _first_values(sub):
+    if isinstance(sub, dict):
+        d = sub.get("data")
+        if isinstance(d, dict) and "values" in d:
+            return d["values"]
+        for k in ("layer", "concat", "hconcat", "vconcat"):
+            for x in sub.get(k, []):
+                r = _first_values(x)
+                if r is not None:
+                    return r
+    return None
+
+
+def facet_data_problem(tri, spec, per_slice=1):
+    """facet i (of `per_slice` consecutive charts per slice) carries one data record per cell of slice i, with
+    that cell's period and evaluation date (`_build_metric_slice_charts`: one chart per slice, in slice order)"""
+    subs = spec.get("concat") or spec.get("hconcat") or spec.get("vconcat") or [spec]
+    slices = list(tri.slices.values())
+    if len(subs) != per_slice * len(slices):
+        return f"{len(subs)} charts for {len(slices)} slices x {per_slice} metrics"
+    for j, sub in enumerate(subs):
+        sl = slices[j // per_slice]
+        vals = _first_values(sub)
+        if vals is None:
+            return f"facet {j} embeds no data"
+        try:
+            got = sorted((str(x["period_start"])[:10], str(x["period_end"])[:10], str(x["evaluation_date"])[:10]) for x in vals)
+        except (KeyError, TypeError) as e:
+            return f"facet {j}: data records without coordinates ({type(e).__name__})"
+        want = sorted((str(c.period_start), str(c.period_end), str(c.evaluation_date)) for c in sl.cells)
+        if got != want:
+            return (f"facet {j} does not show the records of slice {j // per_slice}: {len(got)} records for "
+                    f"{len(want)} cells" if len(got) != len(want) else
+                    f"facet {j} shows records of other cells than those of slice {j // per_slice}")
+    return None
 
 
 def plot_checks(ctx, rng):
@@ -500,6 +595,8 @@ def plot_checks(ctx, rng):
     if jobs > 1:
         with mp.get_context("fork").Pool(jobs) as pool:
             done = pool.map(_plot_one, [tasks[i] for i in order], chunksize=1)
+            pool.close()
+            pool.join()      # let the workers exit normally (a terminated worker loses e.g. coverage data)
     else:
         done = [_plot_one(tasks[i]) for i in order]
     recs = [None] * len(tasks)
@@ -529,9 +626,47 @@ def plot_checks(ctx, rng):
         nf = rec["facets"]
         if nf != ns_real:
             ctx.fail(f"{name}: {nf} facets for {ns_real} slices", case)
+        elif rec.get("facet_data"):
+            ctx.fail(f"{name}: one facet per slice — {rec['facet_data']}", case)
         ctx.count(f"plot/{name}")
         ctx.case(digest=json.dumps([name, case["cells"]], sort_keys=True), nontrivial=True,
                  sample={"plot": name, "slices": ns_real, "facets": nf} if ti == 0 and name == "plot_heatmap" else None)
+    # in this process (no worker): the cheapest chart builders on the first 1-slice and 2-slice triangle, with one
+    # and with two metrics (two metrics: one chart per slice and metric, slice-major)
+    for ti in (0, 1):
+        tri = _PLOT_TRIS[ti]
+        for name, kw, per in (("plot_data_completeness", {}, 1), ("plot_heatmap", {}, 1),
+                              ("plot_heatmap", {"metric_spec": ["Paid Loss Ratio", "Reported Loss"]}, 2)):
+            with warnings.catch_warnings():
+                warnings.simplefilter("ignore")
+                st, spec = call(lambda: getattr(tri, name)(**kw).to_dict(validate=True))
+            case = {"plot": name, "kwargs": kw, "cells": w_cells(tri.cells)}
+            ctx.count(f"plot/in-process/{name}/{per}-metric/{len(tri.slices)}-slice")
+            ctx.evaluations += 1
+            if st != "ok":
+                ctx.fail(f"{name}({kw}) raised {spec}", case)
+                continue
+            prob = facet_data_problem(tri, spec, per)
+            if prob:
+                ctx.fail(f"{name}: one facet per slice — {prob}", case)
+        # caller-supplied facet titles (plot.py:1698-1699): title i goes to the facet of slice i
+        titles = [f"facet-{k}" for k in range(len(tri.slices))]
+        with warnings.catch_warnings():
+            warnings.simplefilter("ignore")
+            st, spec = call(lambda: tri.plot_data_completeness(facet_titles=titles).to_dict(validate=True))
+        case = {"plot": "plot_data_completeness", "kwargs": {"facet_titles": titles}, "cells": w_cells(tri.cells)}
+        ctx.count(f"plot/in-process/facet_titles/{len(tri.slices)}-slice")
+        ctx.evaluations += 1
+        if st != "ok":
+            ctx.fail(f"plot_data_completeness(facet_titles=...) raised {spec}", case)
+        else:
+            prob = facet_data_problem(tri, spec, 1)
+            subs = spec.get("concat") or [spec]
+            got = [(x.get("title") or {}).get("text") if isinstance(x.get("title"), dict) else x.get("title") for x in subs]
+            # (a single chart is not concatenated: its title is replaced by the figure title)
+            if prob or (len(titles) > 1 and got != titles):
+                ctx.fail("plot_data_completeness(facet_titles): one facet per slice, titled in slice order — "
+                         f"{prob or got}", case)
     ctx.notes.append(f"plot methods checked: {sorted(supported_seen)}")
     ctx.notes.append("plot methods EXCLUDED (fail on the unchanged tree, altair API: "
                      f"X.title() positional+keyword): {excluded}")
@@ -548,8 +683,18 @@ def correspondence(ctx):
     n = 3000 if ctx.thorough else 200
     stat_fields = [f.name for f in dataclasses.fields(P.FieldSummary) if f.name not in STAT_FIELDS_SKIP]
     reqs, cases = [], []
+    import time
+    t_start = time.time()
     for i in range(n):
-        cells, desc = rand_triangle_cells(rng, small=ctx.thorough and rng.random() < 0.5)
+        if i == 8 or (ctx.thorough and i % 150 == 8):
+            # 1000 posterior draws per cell on a small one-slice triangle. The compiled model needs ~4 s per such
+            # cell (exact rationals), so these records are judged by the stdlib re-statement only (py_spec:
+            # percentiles recomputed with fractions), not sent to the driver
+            cells, desc = rand_triangle_cells(rng, n_slices=1, force_samples=1000)
+        elif i == 12 or (ctx.thorough and i % 150 == 12):
+            cells, desc = rand_triangle_cells(rng, n_slices=rng.choice([1, 2]), force_samples=200)
+        else:
+            cells, desc = rand_triangle_cells(rng, small=ctx.thorough and rng.random() < 0.5)
         tri = Triangle(cells)
         wire = w_cells(tri.cells)
         for k, v in desc.items():
@@ -585,9 +730,90 @@ def correspondence(ctx):
             if impl2 != impl:
                 ctx.fail("sequence: a second build_plot_data call on an equal triangle returns different records",
                          case, {"first": impl, "second": impl2})
-        reqs.append({"cells": wire, "impl": impl, "tol": common.w_rat(TOL)})
-        cases.append((case, impl))
+        to_model = desc["n_samples"] <= 200
+        if to_model:
+            reqs.append({"cells": wire, "impl": impl, "tol": common.w_rat(TOL)})
+            cases.append((case, impl))
+        else:
+            ctx.count("data/1000 samples: stdlib re-statement only (not sent to the model)")
+        if i % 4 == 0:
+            # keep_samples=True (plot.py:85-86): the `metric` entry becomes {index: sample}; every statistic stays
+            with warnings.catch_warnings():
+                warnings.simplefilter("ignore")
+                st3, recs3 = call(P.build_plot_data, tri, None, True, False, True)
+            ctx.count("data/sequence-keep_samples")
+            if st3 == "err":
+                ctx.fail(f"build_plot_data(keep_samples=True) raised {recs3}", case)
+            else:
+                try:
+                    impl3 = [rec_wire(r, stat_fields) for r in recs3]
+                except NonFinite:
+                    impl3 = None
+                if impl3 != impl:
+                    ctx.fail("keep_samples=True changes the records' coordinates or statistics", case,
+                             {"keep_samples=False": impl, "keep_samples=True": impl3})
+                for clause, detail in keep_samples_problems(tri.cells, recs3)[:3]:
+                    ctx.fail(clause, case, detail)
+            # remove_empties=False (plot.py:257): absent summaries stay in the record as {} under their metric name
+            with warnings.catch_warnings():
+                warnings.simplefilter("ignore")
+                st5, recs5 = call(P.build_plot_data, tri, None, False)
+            ctx.count("data/sequence-remove_empties=False")
+            if st5 == "err":
+                # OBSERVATION, not a clause of C20 (the property speaks about the records of the default call):
+                # with remove_empties=False the tooltip join reads v["snake_case_field"] of the EMPTY summaries and
+                # raises KeyError as soon as one metric has no inputs -- i.e. on every non-empty triangle, because the
+                # last evaluation of a period has no successor for the age-to-age metrics. Reported in
+                # notes/agents/cov_misc.md; counted here so that a change of this behaviour shows in the evidence.
+                ctx.count(f"data/remove_empties=False raises {recs5} (observation, outside the property)")
+                if not getattr(ctx, "_re_noted", False):
+                    ctx._re_noted = True
+                    ctx.notes.append("observation: build_plot_data(t, None, False) [remove_empties=False] raises "
+                                     f"{recs5} ('snake_case_field') when any metric of a cell has no inputs")
+            else:
+                try:
+                    impl5 = [rec_wire(r, stat_fields) for r in recs5]
+                except NonFinite:
+                    impl5 = None
+                names5 = [P._to_snake_case(k) for k in P.COMMON_METRIC_DICT]
+                if impl5 != impl:
+                    ctx.fail("remove_empties=False changes the non-empty summaries", case,
+                             {"remove_empties=True": impl, "remove_empties=False": impl5})
+                elif any(r5.get(k, None) != {} for r5, w in zip(recs5, impl)
+                         for k in names5 if k not in [m[0] for m in w["m"]]):
+                    ctx.fail("remove_empties=False: a metric without inputs must stay in the record as an empty summary",
+                             case)
+            # SEQUENCE: a DIFFERENT triangle with the same coordinates and the same sample counts (every value
+            # rescaled: a re-run forecast) in the same process; its records are checked like any other case
+            twin = [c.replace(values={k: rescale(v) for k, v in c.values.items()}) for c in tri.cells]
+            tri2 = Triangle(twin)
+            wire2 = w_cells(tri2.cells)
+            with warnings.catch_warnings():
+                warnings.simplefilter("ignore")
+                st4, recs4 = call(P.build_plot_data, tri2)
+            case2 = {"cells": wire2, "after build_plot_data on": wire}
+            ctx.count("data/sequence-rescaled-twin")
+            ctx.case(digest=json.dumps(wire2, sort_keys=True), nontrivial=len(cells) > 1, sample=None)
+            if st4 == "err":
+                ctx.fail(f"build_plot_data raised {recs4} on a valid triangle (second triangle of the process "
+                         "with the same coordinates)", case2)
+                continue
+            try:
+                impl4 = [rec_wire(r, stat_fields) for r in recs4]
+            except NonFinite as e:
+                ctx.fail("a summary statistic is not finite", case2, str(e))
+                continue
+            for clause, detail in py_spec(tri2.cells, impl4)[:3]:
+                ctx.fail("sequence (second triangle, same coordinates, other values): " + clause, case2,
+                         {"where": detail, "impl": impl4})
+            if to_model:
+                reqs.append({"cells": wire2, "impl": impl4, "tol": common.w_rat(TOL)})
+                cases.append((case2, impl4))
+    t_loop = time.time()
+    ctx.notes.append(f"timing: implementation + stdlib re-statement {t_loop - t_start:.1f}s")
     outs = drv.run(reqs)
+    t_drv = time.time()
+    ctx.notes.append(f"timing: driver {t_drv - t_loop:.1f}s for {len(reqs)} requests")
     for (case, impl), out in zip(cases, outs):
         spec = out["spec"]
         if spec is not None and not all(spec.values()):
@@ -599,7 +825,9 @@ def correspondence(ctx):
         diff = compare_records(out["model"], impl)
         if diff:
             ctx.disagree("build_plot_data records: " + diff, case, out["model"], impl)
+    t_cmp = time.time()
     plot_checks(ctx, rng)
+    ctx.notes.append(f"timing: plot checks {time.time() - t_cmp:.1f}s")
 
 
 if __name__ == "__main__":
